@@ -46,8 +46,9 @@ class Step(VC):
         msg = symval.fresh(I, ctx, "Cw20ExecuteMsg", "msg", None, CRATE)
         msg.variants = [self.variant]
         m = I.force(ctx, msg)
-        outcome, r = run_entry(I, ctx, fn(I, "execute", CRATE), [make_deps(), env, info, m])
-        ob.outcome = outcome
+        ctx.stubs["verify_logo"] = stub_result("verify_logo")
+        outcome, r, pre = call_entry(I, ctx, ob, CRATE, "execute", "execute", [make_deps(), env, info, m], env, info, m,
+                                     "Cw20ExecuteMsg", CRATE)
         post_supply = supply(ctx)
         post = ctx.storage["balance"]
         ob.require("C01.supply_eq_sum", post_supply == map_sum(post))
@@ -85,3 +86,92 @@ VARIANTS = ["Transfer", "Burn", "Send", "IncreaseAllowance", "DecreaseAllowance"
 
 def vcs(tier):
     return [Step(v) for v in VARIANTS]
+
+
+def empty_cw20_state(ctx):
+    from mirsym.ctx import ItemStore, MapStore
+    ctx.storage["token_info"] = ItemStore("token_info", False, None, "state::TokenInfo")
+    ctx.storage["marketing_info"] = ItemStore("marketing_info", False, None, "MarketingInfoResponse")
+    ctx.storage["logo"] = ItemStore("logo", False, None, "Logo")
+    ctx.storage["contract_info"] = ItemStore("contract_info", False, None, "cw2::ContractVersion")
+    ctx.storage["balance"] = MapStore("balance", [], None, "Uint128")
+    ctx.storage["allowance"] = MapStore("allowance", [], None, "AllowanceResponse")
+    ctx.storage["allowance_spender"] = MapStore("allowance_spender", [], None, "AllowanceResponse")
+
+
+class Base(VC):
+    """instantiate establishes the invariant for every initial_balances list (duplicates included) up to the bound"""
+    property_id = "C01"
+    crate = CRATE
+    name = "C01.base.instantiate"
+
+    def __init__(self, nbal=2):
+        self.nbal = nbal
+        self.name = f"C01.base.instantiate[{nbal}]"
+
+    def run(self, I, ctx, ob):
+        empty_cw20_state(ctx)
+        ctx.bounds["vec"] = self.nbal
+        env, info = mk_env(I, ctx), mk_info(I, ctx)
+        msg = symval.fresh(I, ctx, "msg::InstantiateMsg", "msg", None, CRATE)
+        # name / symbol are irrelevant to the property: concretised (stated cut)
+        msg = msg.with_("name", "Token").with_("symbol", "TOK")
+        ctx.stubs["verify_logo"] = stub_result("verify_logo")
+        outcome, r, pre = call_entry(I, ctx, ob, CRATE, "instantiate", "instantiate", [make_deps(), env, info, msg], env, info, msg,
+                                     "msg::InstantiateMsg", CRATE)
+        if outcome != "Ok":
+            ob.require("C01.failed_instantiate_leaves_nothing", True)
+            return
+        bals = I.force(ctx, msg.get("initial_balances"))
+        total = zsum([I.deref(ctx, b).get("amount") for b in bals.items])
+        ob.require("C01.supply_eq_sum", supply(ctx) == map_sum(ctx.storage["balance"]))
+        ob.require("C01.supply_eq_initial_total", supply(ctx) == total)
+        ob.witness("instantiated_with_max_accounts", len(bals.items) == self.nbal)
+        ob.twin("twin.supply_zero", supply(ctx) == 0)
+
+
+class Queries(VC):
+    """the supply / balance queries report exactly the stored values the invariant speaks about"""
+    property_id = "C01"
+    crate = CRATE
+    name = "C01.query.observability"
+
+    def run(self, I, ctx, ob):
+        U, ti, bal = cw20_state(I, ctx, with_allowances=False)
+        env = mk_env(I, ctx)
+        q = symval.fresh(I, ctx, "msg::QueryMsg", "q", None, CRATE)
+        q.variants = ["Balance", "TokenInfo"]
+        qm = I.force(ctx, q)
+        deps = make_deps(False)
+        pre = snapshot_storage(ctx.storage)
+        outcome, r = run_entry(I, ctx, fn(I, "query", CRATE), [deps, env, qm], pre)
+        ob.outcome = f"{qm.variant}:{outcome}"
+        if outcome != "Ok": return      # only an invalid address string makes the balance query fail
+        val = r.value
+        if qm.variant == "Balance":
+            p, v = pre["balance"].get(ctx, (qm.get("address"),))
+            ob.require("C01.balance_query_reads_store", val.get("balance") == zite(p, v, 0))
+            ob.witness("balance_of_holder", p)
+        else:
+            ob.require("C01.token_info_reads_supply", val.get("total_supply") == pre["token_info"].value.get("total_supply"))
+            ob.witness("token_info")
+        ob.twin("twin.query_returns_7", (val.get("balance") if qm.variant == "Balance" else val.get("total_supply")) == 7)
+
+
+_old_vcs = vcs
+
+
+def vcs(tier):
+    out = _old_vcs(tier)
+    out += [Base(2), Queries()]
+    if tier == "thorough": out += [Base(3)]
+    return out
+
+
+BOUNDS = {"quick": {"addresses_with_state": N, "initial_balances": 2, "amounts": "full u128, symbolic"},
+          "thorough": {"addresses_with_state": N, "initial_balances": 3, "amounts": "full u128, symbolic"}}
+OUTSIDE = ("pre-states with more than %d accounts holding balances/allowances besides arbitrary fresh addresses (closed world); "
+           "initial_balances longer than the bound; histories are covered by induction: each VC starts from an arbitrary state "
+           "satisfying the invariant" % N)
+ASSUMPTIONS = ["verify_logo (logo byte scanning) is stubbed as a nondeterministic pure Result; name/symbol are concrete in instantiate",
+               "Api::addr_validate is identity-or-error with an arbitrary fixed validity predicate per string"]
